@@ -451,7 +451,18 @@ def failed_bulk_scenario(ctx, g, rng, n, sig):
                         raised = None
                     except Exception as e:  # noqa: BLE001
                         raised = e
-                    shadow = dict(prefix)          # assignment = clear, then update
+                    # a whole-mapping assignment has no built-in counterpart that says what a FAILED one leaves behind: either
+                    # nothing happened (the value is read before the mapping is touched) or it is "clear, then update" cut short
+                    # where the built-in update is; the mapping must be one of the two (and consistent with its index)
+                    untouched, cut_short = dict(shadow), dict(prefix)
+                    shadow = cut_short
+                    if raised is not None and kind != "ok":
+                        now = [(k, id(v)) for k, v in bi.symbolic_expressions.items()]
+                        if now == [(k, id(untouched[k])) for k in sorted(untouched)] and now != [(k, id(cut_short[k])) for k in sorted(cut_short)]:
+                            shadow = untouched
+                            ctx.count("failed_assign_left_untouched")
+                        else:
+                            ctx.count("failed_assign_cut_short")
             except Exception as e:  # noqa: BLE001
                 ctx.add("oracle", sig, "after [%s], %s raised %s" % ("; ".join(trail[-3:]), desc, exc_name(g, e)), {"trail": trail + [desc]})
                 break
